@@ -1,5 +1,5 @@
 (* Proofs.Parse: lemmas about Model.Parse (C20). *)
-From DV Require Import Base.Prelude Base.Int Gen.Consts Model.Parse.
+From DV Require Import Base.Prelude Base.Int Gen.Consts Gen.Throttle Model.Parse.
 From Coq Require Import ZifyN ZifyNat ZifyBool.
 Ltac Zify.zify_post_hook ::= Z.div_mod_to_equations.
 Local Open Scope N_scope.
@@ -721,3 +721,11 @@ Lemma impl_svsizes_panics : view_svsizes false {| pi_label := 21; pi_blocks := [
 Proof. reflexivity. Qed.
 Lemma fixed_svsizes_ok i : view_svsizes true i = Ok tt.
 Proof. unfold view_svsizes. destruct (List.concat _); reflexivity. Qed.
+
+(* ---- the throttle slot (Gen/Throttle.v, regenerated from the source on every run) ---- *)
+(* every handler that takes the server-wide throttle slot hands it back with a defer placed
+   immediately after taking it, i.e. on every path out of the handler, panics included *)
+Lemma throttle_sites_deferred : forallb (fun s : String.string * bool => snd s) throttle_sites = true.
+Proof. reflexivity. Qed.
+Lemma throttle_sites_nonempty : throttle_sites <> [].
+Proof. discriminate. Qed.
